@@ -831,11 +831,11 @@ fn main() {
     let modes: Vec<String> = if a.extra.is_empty() { vec!["server".into(), "client".into(), "mixed".into(), "hostile".into(), "invalid".into()] } else { a.extra[0].split(',').map(|s| s.to_string()).collect() };
     let mut tn = 0;
     for mode in &modes {
-        let n = match mode.as_str() { "invalid" => if th { 300 } else { 30 }, _ => if th { 900 } else { 45 } };
+        let n = match mode.as_str() { "invalid" => if th { 800 } else { 120 }, _ => if th { 2500 } else { 250 } };
         for _ in 0..n {
             tn += 1;
             let accepting = match mode.as_str() { "client" => false, "server" => true, _ => r.chance(2, 3) };
-            let naddr = 2 + r.below(3) as usize;
+            let naddr = if r.chance(1, 8) { 5 + r.below(2) as usize } else { 2 + r.below(3) as usize };
             let mut w = World::new(&o, format!("{}{}", mode, tn), accepting, naddr, a.seed * 7919 + tn, &mut r);
             match mode.as_str() { "server" => { for x in w.role_client.iter_mut() { *x = r.chance(9, 10); } } "client" => { for x in w.role_client.iter_mut() { *x = r.chance(1, 5); } } _ => {} }
             if r.chance(1, 2) { for x in 0..naddr { if r.chance(2, 3) { w.handshake(&o, x); } } }
